@@ -16,7 +16,100 @@ ASSUMPTIONS = sc.STREAM_ASSUMPTIONS
 PROFILES = ["fault","fault","wrap","close"]
 
 
+def fd_exhaustion(ctx):
+    """descriptor-table exhaustion at accept(): the real client.onaccept_tcp against a simulated descriptor table
+    (accept / open need a free slot, close frees one).  Implementation-only oracle: the connection that cannot be
+    served is shed, nothing is raised, and the spare descriptor is held again afterwards."""
+    import errno
+    import socket
+    import sshuttle.client as client
+    real_os = client.os
+
+    class Table(object):
+        def __init__(self, free):
+            self.free = free
+            self.next = 1000
+            self.open_fds = set()
+
+        def take(self, err):
+            if self.free <= 0:
+                raise OSError(err, os.strerror(err))
+            self.free -= 1
+            self.next += 1
+            self.open_fds.add(self.next)
+            return self.next
+
+        def give(self, fd):
+            if fd in self.open_fds:
+                self.open_fds.discard(fd)
+                self.free += 1
+
+    for err in (errno.EMFILE, errno.ENFILE):
+        for pending in (1, 2, 5):
+            for other_free_later in (False, True):
+                t = Table(0)
+
+                class FakeSock(object):
+                    def __init__(self):
+                        self.fd = t.take(err)
+                        self.closed = False
+
+                    def close(self):
+                        if not self.closed:
+                            self.closed = True
+                            t.give(self.fd)
+
+                class Listener(object):
+                    def __init__(self):
+                        self.accepted = []
+
+                    def accept(self):
+                        s_ = FakeSock()          # raises EMFILE/ENFILE when the table is full
+                        self.accepted.append(s_)
+                        return s_, ("10.0.0.9", 40000 + len(self.accepted))
+
+                class OsProxy(object):
+                    def __getattr__(self, k):
+                        return getattr(real_os, k)
+
+                    @staticmethod
+                    def close(fd):
+                        t.give(fd)
+
+                    @staticmethod
+                    def open(path, flags, *a):
+                        return t.take(errno.EMFILE)
+
+                t.free = 1
+                spare = t.take(err)              # the spare descriptor the module keeps for this situation
+                old = (client.os, client._extra_fd)
+                client.os, client._extra_fd = OsProxy(), spare
+                lst = Listener()
+                what = None
+                try:
+                    for k in range(pending):
+                        try:
+                            client.onaccept_tcp(lst, None, None, [])
+                        except BaseException as e:          # noqa
+                            what = "onaccept_tcp raised %s while the descriptor table was full" % type(e).__name__
+                            break
+                        if client._extra_fd not in t.open_fds:
+                            what = "the spare descriptor is not held any more after a connection was shed"
+                            break
+                        if other_free_later and k == 0:
+                            pass
+                    if what is None and (len(lst.accepted) != pending or not all(x.closed for x in lst.accepted)):
+                        what = "a connection that could not be served was not accepted and closed"
+                finally:
+                    client.os, client._extra_fd = old
+                ctx.case(("fdx", err, pending, other_free_later), nontrivial=True)
+                ctx.count("fd_exhaustion_cases")
+                if what:
+                    ctx.violation(what, {"fd_exhaustion": {"errno": errno.errorcode[err], "pending_connections": pending}})
+
+
 def correspondence(ctx):
+    fd_exhaustion(ctx)
     sc.stream_check(ctx, PROP, PROFILES, 120, 2500)
     # socket faults of DNS / UDP flows on both ends (server.py DnsProxy / UdpProxy, client.py dns_done / udp_done)
     dc.run_c08_dgram(ctx)
@@ -24,6 +117,10 @@ def correspondence(ctx):
 
 
 def replay(ctx, rp):
+    if rp.get("replay", {}).get("fd_exhaustion"):
+        n = len(ctx.violations)
+        fd_exhaustion(ctx)
+        return len(ctx.violations) > n
     if rp.get("replay", {}).get("script"):
         return bool(dc.replay_c08_dgram(rp))
     return sc.stream_replay(ctx, rp, PROP)
